@@ -1735,10 +1735,83 @@ func rule091local(r *core.Run, reach map[*ssa.Function]bool) {
 					}
 				}
 			}
+			if !ok2 {
+				ok2 = nilTwinValidated(r, ph, in)
+			}
 			r.Check(ok2, "R09.1l", key(fname(r, f), "possibly-nil local dereferenced", sprintf("#%d", n)), pos(r, in), "guarded non-nil", "a local pointer that is nil on some path reaching here is dereferenced without a dominating non-nil test: the request panics")
 		})
 	}
 	r.Held("R09.1l", key("repo", "possibly-nil locals enumerated"), "", sprintf("%d dereferences of merged pointers with a nil edge", n))
+}
+
+// nilTwinValidated: the merged pointer is "nil, or the element of slice field F
+// at an index with leaves L" (what a bounds-checked accessor helper leaves after
+// expansion), and earlier in the same function a pointer of exactly that shape
+// — same field, same index leaves — was tested against nil with the nil side
+// not reaching this use, while the function does not write F in between: the
+// second look-up finds what the first one validated (the reviewed twin-site
+// premise of the bounds rule, for the nil form of the same access).
+func nilTwinValidated(r *core.Run, ph *ssa.Phi, use ssa.Instruction) bool {
+	ctx := oblig.NewCtx(r.P)
+	shape := func(p *ssa.Phi) (*ssa.IndexAddr, bool) {
+		var ia *ssa.IndexAddr
+		hasNil := false
+		for _, e := range p.Edges {
+			if core.IsNilConst(e) {
+				hasNil = true
+				continue
+			}
+			ld, ok := e.(*ssa.UnOp)
+			if !ok || ld.Op != token.MUL {
+				return nil, false
+			}
+			x, ok := ld.X.(*ssa.IndexAddr)
+			if !ok || (ia != nil && ia != x) {
+				return nil, false
+			}
+			ia = x
+		}
+		return ia, hasNil && ia != nil
+	}
+	ia2, ok := shape(ph)
+	if !ok {
+		return false
+	}
+	base := ctx.BaseDesc(ia2.X)
+	if !strings.HasPrefix(base, "field:") {
+		return false
+	}
+	for _, st := range r.P.FieldStores(strings.TrimPrefix(base, "field:")) {
+		if st.Parent() == use.Parent() {
+			return false
+		}
+	}
+	want := ctx.IndexLeaves(ia2)
+	found := false
+	core.Instrs(use.Parent(), func(in ssa.Instruction) {
+		p1, isPhi := in.(*ssa.Phi)
+		if !isPhi || p1 == ph || found {
+			return
+		}
+		ia1, ok := shape(p1)
+		if !ok || ctx.BaseDesc(ia1.X) != base || ctx.IndexLeaves(ia1) != want || !core.Reaches(ia1, use) {
+			return
+		}
+		if p1.Referrers() == nil {
+			return
+		}
+		for _, u := range *p1.Referrers() {
+			b, isB := u.(*ssa.BinOp)
+			if !isB || (b.Op != token.EQL && b.Op != token.NEQ) || !(core.IsNilConst(b.X) || core.IsNilConst(b.Y)) {
+				continue
+			}
+			// assuming the twin is nil, the use is not reached from the test
+			if !core.ReachableTrackingFlags(b, use, map[ssa.Value]bool{b: b.Op == token.EQL}, nil) {
+				found = true
+			}
+		}
+	})
+	return found
 }
 
 // rule091result — a lookup that can come back empty is tested before use.
